@@ -120,3 +120,27 @@ def from_spectrum_1d(counts):
     res["d-tajima"] = tajima_d(res["pi"], S, n) if pairs and a1 else None
     res["d-fu-li"] = fu_li_d(S, c[1] if n >= 1 else 0, n)
     return res
+
+
+def from_spectrum_1d_float(counts):
+    """The same published estimators in double precision (math.fsum for the harmonic numbers): for sample sizes where exact
+    rationals are unaffordable (tens of thousands of chromosomes). Accurate to ~1e-12 relative for non-cancelling inputs."""
+    n = len(counts) - 1
+    S = float(sum(counts[1:n]))
+    a1 = math.fsum(1.0 / i for i in range(1, n))
+    a2 = math.fsum(1.0 / (i * i) for i in range(1, n))
+    pairs = n * (n - 1) / 2
+    pi = float(sum(Fraction(c) * i * (n - i) for i, c in enumerate(counts) if c and 0 < i < n)) / pairs
+    res = {"sum": float(sum(counts)), "s": S, "pi": pi, "theta": S / a1}
+    b1 = (n + 1) / (3.0 * (n - 1))
+    b2 = 2.0 * (n * n + n + 3) / (9.0 * n * (n - 1))
+    c1 = b1 - 1 / a1
+    c2 = b2 - (n + 2) / (a1 * n) + a2 / a1 ** 2
+    var = (c1 / a1) * S + (c2 / (a1 ** 2 + a2)) * S * (S - 1)
+    res["d-tajima"] = (pi - S / a1) / math.sqrt(var) if S and var > 0 else None
+    c = 2 * (n * a1 - 2 * (n - 1)) / ((n - 1.0) * (n - 2.0))
+    v = 1 + a1 ** 2 / (a2 + a1 ** 2) * (c - (n + 1.0) / (n - 1.0))
+    u = a1 - 1 - v
+    var2 = u * S + v * S * S
+    res["d-fu-li"] = (S - a1 * float(counts[1])) / math.sqrt(var2) if S and var2 > 0 else None
+    return res
